@@ -998,6 +998,80 @@ pub fn run_sub_process(run: &mut Run, bin: &str, parts: &[&str]) {
     run.extra.insert(key, v);
 }
 
+/// Coverage-guided campaign with a cargo-fuzz target whose oracle is inside the target. Builds the
+/// target (nightly), runs `jobs` libFuzzer processes on fresh corpus directories seeded with `seeds`,
+/// and returns (total executions, corpus files, crashing inputs). None if the tooling is unavailable.
+pub fn run_fuzz(target: &str, seed: u64, runs_per_job: u64, jobs: usize, max_len: usize, seeds: &[Vec<u8>]) -> Result<(u64, usize, Vec<Vec<u8>>), String> {
+    let tgt = std::env::var("VERIF_TARGET").unwrap_or_else(|_| format!("{VERIF_ROOT}/target"));
+    let fuzz_dir = format!("{VERIF_ROOT}/fuzz");
+    let _ = std::fs::copy(format!("{VERIF_ROOT}/harness/Cargo.lock"), format!("{fuzz_dir}/Cargo.lock"));
+    let build = std::process::Command::new("cargo")
+        .args(["+nightly", "fuzz", "build", "--fuzz-dir", &fuzz_dir, "--target-dir", &format!("{tgt}/fuzz"), target])
+        .env("CARGO_NET_OFFLINE", "true")
+        .output()
+        .map_err(|e| format!("cargo fuzz: {e}"))?;
+    if !build.status.success() {
+        let err = String::from_utf8_lossy(&build.stderr);
+        return Err(format!("cargo +nightly fuzz build failed: {}", err.lines().rev().take(6).collect::<Vec<_>>().join(" | ")));
+    }
+    let bin = format!("{tgt}/fuzz/x86_64-unknown-linux-gnu/release/{target}");
+    let work = format!("{tgt}/fuzz-work/{target}-{}", std::process::id());
+    let _ = std::fs::remove_dir_all(&work);
+    let mut children = vec![];
+    for j in 0..jobs {
+        let corpus = format!("{work}/corpus{j}");
+        let arts = format!("{work}/artifacts{j}/");
+        std::fs::create_dir_all(&corpus).map_err(|e| e.to_string())?;
+        std::fs::create_dir_all(&arts).map_err(|e| e.to_string())?;
+        // half of the jobs start from the golden seeds, the others from an empty corpus
+        if j % 2 == 0 {
+            for (i, s) in seeds.iter().enumerate() {
+                let _ = std::fs::write(format!("{corpus}/seed{i}"), s);
+            }
+        }
+        let child = std::process::Command::new(&bin)
+            .args([
+                corpus.clone(),
+                format!("-seed={}", seed.wrapping_mul(1000).wrapping_add(j as u64 + 1).max(1) & 0x7fff_ffff),
+                format!("-runs={runs_per_job}"),
+                "-len_control=0".to_string(),
+                format!("-max_len={max_len}"),
+                format!("-artifact_prefix={arts}"),
+                "-print_final_stats=1".to_string(),
+            ])
+            .stdout(std::process::Stdio::null())
+            .stderr(std::process::Stdio::piped())
+            .spawn()
+            .map_err(|e| format!("cannot run {bin}: {e}"))?;
+        children.push((child, corpus, arts));
+    }
+    let mut execs = 0u64;
+    let mut corpus_files = 0usize;
+    let mut crashes: Vec<Vec<u8>> = vec![];
+    for (child, corpus, arts) in children {
+        let out = child.wait_with_output().map_err(|e| e.to_string())?;
+        let err = String::from_utf8_lossy(&out.stderr);
+        for l in err.lines() {
+            if let Some(v) = l.strip_prefix("stat::number_of_executed_units:") {
+                execs += v.trim().parse::<u64>().unwrap_or(0);
+            }
+            if l.contains("ORACLE FAILURE") {
+                println!("fuzz {target}: {l}");
+            }
+        }
+        corpus_files += std::fs::read_dir(&corpus).map(|d| d.count()).unwrap_or(0);
+        if let Ok(rd) = std::fs::read_dir(&arts) {
+            for f in rd.flatten() {
+                if let Ok(bytes) = std::fs::read(f.path()) {
+                    crashes.push(bytes);
+                }
+            }
+        }
+    }
+    let _ = std::fs::remove_dir_all(&work);
+    Ok((execs, corpus_files, crashes))
+}
+
 fn run_case<C: Serialize, F: Fn(&C, &mut Stats) -> Result<(), Fail>>(f: &F, case: &C, st: &mut Stats) -> Result<(), Fail> {
     fn ser<C: Serialize>(p: *const ()) -> Value {
         // SAFETY: only called from the panic hook on the thread that set the pointer, while the case is alive
